@@ -28,6 +28,8 @@ DIMS = [
               'exc_tryfinally', 'exc_tryexcept', 'exc_for', 'exc_with']),
     ('pos', ['last', 'first', 'middle']),
     ('before', ['nothing', 'want', 'multiline']),
+    # what follows the closing quotes on their line
+    ('closer', ['plain', 'comment', 'comment_apostrophe', 'comment_dquote']),
 ]
 STYLES = ['auto', 'google', 'freeform']
 
@@ -83,7 +85,7 @@ def doctest_lines(fail, pos, before):
 
 
 def build(cfg):
-    """cfg: dict of the 8 dimensions.  Returns dict(source, first_prompts{style:[lineno]}, fail_line,
+    """cfg: dict of the 9 dimensions.  Returns dict(source, first_prompts{style:[lineno]}, fail_line,
     fail_in{style: index of the doctest holding the failing line})"""
     w = W()
     nest = cfg['nest']
@@ -199,7 +201,8 @@ def build(cfg):
         w.emit('')
         w.emit(I + 'Example:')
         blocks.append(emit_body(I + '    ', 1))
-    w.emit(I + q)
+    w.emit(I + q + {'plain': '', 'comment': '  # noqa: E501', 'comment_apostrophe': "  # don't reformat",
+                    'comment_dquote': '  # see the "usage" section'}[cfg.get('closer', 'plain')])
     if nest == 'module':
         w.emit('')
         header()
@@ -353,4 +356,4 @@ class LinenoSpec(Spec):
 def specs(tier):
     if tier == 'thorough':
         return [LinenoSpec('layouts-all', 99)]
-    return [LinenoSpec('layouts-cost<=5', 5)]
+    return [LinenoSpec('layouts-cost<=4', 4)]
